@@ -198,16 +198,25 @@ func unescapeHTML(s string) string {
 		} else if body[0] == '#' {
 			if body[1] == 'x' || body[1] == 'X' {
 				if num, err := strconv.ParseInt(body[2:], 16, 32); err == nil {
-					return string(rune(num))
+					return numericCharRef(num)
 				}
 			} else {
 				if num, err := strconv.ParseInt(body[1:], 10, 32); err == nil {
-					return string(rune(num))
+					return numericCharRef(num)
 				}
 			}
 		}
 		return entity
 	})
+}
+
+// Converts the number in a numeric character reference to a string. As
+// CommonMark requires, U+0000 is replaced by U+FFFD for security reasons.
+func numericCharRef(num int64) string {
+	if num == 0 {
+		return "\uFFFD"
+	}
+	return string(rune(num))
 }
 
 // Codec is used to render output.
